@@ -959,7 +959,7 @@ class Checksums(productmd.common.MetadataBase):
                 self.checksums[path] = (checksum_type, checksum)
         self.validate()
 
-    def _check_checksum_paths(self):
+    def _validate_checksum_paths(self):
         for path in self.checksums:
             if path.startswith("/"):
                 raise ValueError("Only relative paths are allowed for checksums: %s" % path)
